@@ -6,7 +6,8 @@ import MdsVerif.Spec.EditScript
 Driver stream `C11`: `slice.EditScript` / `slice.LCS` on two integer sequences.
 
 Op lines: `reset [L R]` (comma-separated lists, `-` = empty), `l v…` / `r v…` (append to
-lhs / rhs), `edit` (run `EditScript(lhs, rhs)` and `LCS(lhs, rhs)`).
+lhs / rhs), `edit` (run `EditScript(lhs, rhs)` and `LCS(lhs, rhs)`), `editview i a j b` (the same on
+`lhs[i:a]` and `lhs[j:b]`, which in Go are two views of one backing array).
 
 The `edit` line runs `Model.Edit.editScriptFunc?` / `lcsFunc?` — the functions the C11 theorems
 are about — and prints the script edit by edit as `<op><X>/<Y>@<xoff>,<yoff>` (`xoff`/`yoff`:
@@ -109,6 +110,15 @@ def step (s : S) (toks : List String) (impl : String) : S × String × String :=
   | ["edit"] =>
     let v := specEdit s impl
     match lcsFunc? eqInt s.lhs s.rhs, editScriptFunc? eqInt s.lhs s.rhs with
+    | some lcs, some es => (s, s!"lcs={fmtInts lcs} n={es.length} script={fmtScript es}", v)
+    | _, _ => (s, "panic:index", v)
+  | ["editview", i, a, j, b] =>
+    -- the two arguments are `lhs[i:a]` and `lhs[j:b]` (in Go: views of ONE backing array; bounds
+    -- clamped to the length); same model and specification functions as `edit`
+    let l := (s.lhs.take (a.toNat?.getD 0)).drop (i.toNat?.getD 0)
+    let r := (s.lhs.take (b.toNat?.getD 0)).drop (j.toNat?.getD 0)
+    let v := specEdit { lhs := l, rhs := r } impl
+    match lcsFunc? eqInt l r, editScriptFunc? eqInt l r with
     | some lcs, some es => (s, s!"lcs={fmtInts lcs} n={es.length} script={fmtScript es}", v)
     | _, _ => (s, "panic:index", v)
   | _ => (s, "bad-op", "bad bad-op")
